@@ -360,49 +360,7 @@ func c11(c *Ctx) {
 		c.SawFunc(FuncName(hi))
 		c.SawFunc(FuncName(um))
 		c.SawFunc(FuncName(ue))
-		pd := newPostDom(hi)
-		for _, kind := range []struct {
-			field string
-			fn    *ssa.Function
-		}{{"awaitingMetrics", um}, {"awaitingEvents", ue}} {
-			// the lookup of this map by info.IP happens on every path
-			var lk *ssa.Lookup
-			eachInstr(hi, func(in ssa.Instruction) {
-				if l, ok := in.(*ssa.Lookup); ok && strings.HasSuffix(pathOf(l.X), "."+kind.field) && strings.HasSuffix(pathOf(l.Index), ".IP") {
-					lk = l
-				}
-			})
-			if lk == nil {
-				r.Fail("release:"+kind.field+":lookup", hi.Pos(), "no lookup of "+kind.field+"[info.IP]")
-				continue
-			}
-			entry := hi.Blocks[0]
-			r.Check("release:"+kind.field+":checked-on-every-result", lk.Block() == entry || pd.PostDominates(lk.Block(), entry), lk.Pos(), kind.field+" is examined for every lookup result (not only when the other queue was empty)")
-			// go <fn>(ctx, info.Instance, <parked value>) together with delete
-			var gos []*ssa.Go
-			eachInstr(hi, func(in ssa.Instruction) {
-				if g, ok := in.(*ssa.Go); ok && staticCallee(g) == kind.fn {
-					gos = append(gos, g)
-				}
-			})
-			if !r.Check("release:"+kind.field+":one-goroutine", len(gos) == 1, hi.Pos(), fmt.Sprintf("%d go %s sites", len(gos), kind.fn.Name())) {
-				continue
-			}
-			g := gos[0]
-			a := g.Call.Args
-			r.Check("release:"+kind.field+":passes-parked", a[3] == ssa.Value(lk), g.Pos(), "the goroutine receives the parked value that was looked up")
-			r.Check("release:"+kind.field+":passes-instance", strings.HasSuffix(pathOf(a[2]), ".Instance"), g.Pos(), "the goroutine receives info.Instance")
-			var del ssa.CallInstruction
-			for _, cl := range callsTo(hi, "builtin delete") {
-				if strings.HasSuffix(pathOf(cl.Common().Args[0]), "."+kind.field) && strings.HasSuffix(pathOf(cl.Common().Args[1]), ".IP") {
-					del = cl
-				}
-			}
-			r.Check("release:"+kind.field+":deleted-with-release", del != nil && del.Block() == g.Block(), g.Pos(), "the entry is deleted in the same branch that starts the goroutine")
-			// guard: non-nil / non-empty
-			guard := strings.Join(condStrings(g.Block()), " && ")
-			r.Check("release:"+kind.field+":guard", strings.Contains(guard, "=true") && len(condsFor(g.Block())) == 1, g.Pos(), "released under exactly one condition (something is parked): "+guard)
-		}
+		cloudReleaseRule(c, r, hi, map[string]*ssa.Function{"awaitingMetrics": um, "awaitingEvents": ue}, "awaitingMetrics", "awaitingEvents")
 		// updateAndDispatchMetrics forwards exactly once
 		m := countOnPaths(um, func(in ssa.Instruction) bool {
 			cl, ok := in.(ssa.CallInstruction)
@@ -978,6 +936,18 @@ func c19(c *Ctx) {
 		}
 	})
 
+	c.Rule("C19.R5", "no event is left behind or altered on the way: parked events are released by every lookup result for their source whatever else is parked (C11.R3 on the event queue); the lexer's tag slice handed to an event is never a re-used buffer (C05.R6)", 10, func(r *Rule) {
+		hi := w.Func(P, "(*CloudHandler).handleInstanceInfo")
+		ue := w.Func(P, "(*CloudHandler).updateAndDispatchEvents")
+		if hi == nil || ue == nil {
+			r.Unresolved("handleInstanceInfo / updateAndDispatchEvents")
+			return
+		}
+		c.SawFunc(FuncName(hi))
+		cloudReleaseRule(c, r, hi, map[string]*ssa.Function{"awaitingEvents": ue}, "awaitingEvents")
+		lexerTagsProvenance(c, r)
+	})
+
 	c.Rule("C19.R4", "tags and order: static tags applied before forwarding; cloud tags applied before forwarding; stage order parser -> cloud -> tags -> sink", 4, func(r *Rule) {
 		th := w.Func(P, "(*TagHandler).DispatchEvent")
 		if th != nil {
@@ -1088,4 +1058,52 @@ func pipelineImpls(w *World) []types.Type {
 	}
 	sort.Slice(out, func(i, j int) bool { return out[i].String() < out[j].String() })
 	return out
+}
+
+// cloudReleaseRule (C11.R3, C19.R5): a lookup result releases what is parked under each of the given queues.
+func cloudReleaseRule(c *Ctx, r *Rule, hi *ssa.Function, fns map[string]*ssa.Function, fields ...string) {
+		pd := newPostDom(hi)
+		for _, kf := range fields {
+			kind := struct {
+				field string
+				fn    *ssa.Function
+			}{kf, fns[kf]}
+			// the lookup of this map by info.IP happens on every path
+			var lk *ssa.Lookup
+			eachInstr(hi, func(in ssa.Instruction) {
+				if l, ok := in.(*ssa.Lookup); ok && strings.HasSuffix(pathOf(l.X), "."+kind.field) && strings.HasSuffix(pathOf(l.Index), ".IP") {
+					lk = l
+				}
+			})
+			if lk == nil {
+				r.Fail("release:"+kind.field+":lookup", hi.Pos(), "no lookup of "+kind.field+"[info.IP]")
+				continue
+			}
+			entry := hi.Blocks[0]
+			r.Check("release:"+kind.field+":checked-on-every-result", lk.Block() == entry || pd.PostDominates(lk.Block(), entry), lk.Pos(), kind.field+" is examined for every lookup result (not only when the other queue was empty)")
+			// go <fn>(ctx, info.Instance, <parked value>) together with delete
+			var gos []*ssa.Go
+			eachInstr(hi, func(in ssa.Instruction) {
+				if g, ok := in.(*ssa.Go); ok && staticCallee(g) == kind.fn {
+					gos = append(gos, g)
+				}
+			})
+			if !r.Check("release:"+kind.field+":one-goroutine", len(gos) == 1, hi.Pos(), fmt.Sprintf("%d go %s sites", len(gos), kind.fn.Name())) {
+				continue
+			}
+			g := gos[0]
+			a := g.Call.Args
+			r.Check("release:"+kind.field+":passes-parked", a[3] == ssa.Value(lk), g.Pos(), "the goroutine receives the parked value that was looked up")
+			r.Check("release:"+kind.field+":passes-instance", strings.HasSuffix(pathOf(a[2]), ".Instance"), g.Pos(), "the goroutine receives info.Instance")
+			var del ssa.CallInstruction
+			for _, cl := range callsTo(hi, "builtin delete") {
+				if strings.HasSuffix(pathOf(cl.Common().Args[0]), "."+kind.field) && strings.HasSuffix(pathOf(cl.Common().Args[1]), ".IP") {
+					del = cl
+				}
+			}
+			r.Check("release:"+kind.field+":deleted-with-release", del != nil && del.Block() == g.Block(), g.Pos(), "the entry is deleted in the same branch that starts the goroutine")
+			// guard: non-nil / non-empty
+			guard := strings.Join(condStrings(g.Block()), " && ")
+			r.Check("release:"+kind.field+":guard", strings.Contains(guard, "=true") && len(condsFor(g.Block())) == 1, g.Pos(), "released under exactly one condition (something is parked): "+guard)
+		}
 }
